@@ -27,7 +27,9 @@ func main() {
 	witness := flag.Bool("witness", false, "witness (vacuity) mode")
 	trace := flag.Bool("trace", false, "trace instructions")
 	solverKind := flag.String("solver", "z3-new", "z3 | z3-new | cvc5")
-	timeout := flag.Int("qtimeout", 20000, "solver timeout per query (ms)")
+	timeout := flag.Int("qtimeout", 8000, "solver timeout per query (ms)")
+	fallback := flag.String("fallback", "z3,cvc5", "solvers asked one-shot when the primary answers unknown")
+	fbTimeout := flag.Int("fbtimeout", 30000, "timeout of a fallback query (ms)")
 	maxPaths := flag.Int("maxpaths", 200000, "")
 	maxInstrs := flag.Int64("maxinstrs", 5000000, "")
 	loopLimit := flag.Int("looplimit", 4096, "")
@@ -141,7 +143,8 @@ func main() {
 			solver.Log = lf
 		}
 		ec := exec.Config{MaxPaths: *maxPaths, MaxInstrs: *maxInstrs, LoopLimit: *loopLimit, MergeBudget: *mergeBudget,
-			NoMerge: *noMerge, Witness: jb.Witness, Trace: *trace, NoMergeFuncs: map[string]bool{}, Params: jb.Params, EagerBranches: *eager, OracleMergeBudget: *oracleBudget, MergeFuncs: map[string]bool{}}
+			NoMerge: *noMerge, Witness: jb.Witness, Trace: *trace, NoMergeFuncs: map[string]bool{}, Params: jb.Params, EagerBranches: *eager, OracleMergeBudget: *oracleBudget, MergeFuncs: map[string]bool{},
+			Fallback: *fallback, FallbackTimeoutMs: *fbTimeout}
 		for _, f := range strings.Split(*mergeFuncs, ",") {
 			if f != "" {
 				ec.MergeFuncs[f] = true
